@@ -33,6 +33,9 @@ def one_case(run, specs, gamma, origin):
 
     basis = make_basis(specs)
     pts, w = grid()
+    # the quadrature sum does not depend on the order of the points: visit them in a random order, so that whatever an
+    # implementation does with a particular part of one call (the first / last points, a block boundary) hits the whole box
+    pts = pts[np.random.default_rng(run.rng.randrange(2 ** 32)).permutation(len(pts))]
     n = sum(s.size for s in specs)
     S = np.zeros((n, n))
     Tm = np.zeros((n, n))
@@ -40,7 +43,10 @@ def one_case(run, specs, gamma, origin):
     M = np.zeros((n, n, len(orders)))
     rho_int = 0.0
     tau_int = 0.0
-    chunk = 60000
+    # points per call: the whole grid (389 017 points) in one call for small bases, otherwise 100 003 or 60 000 — the result must
+    # not depend on how the grid is split over calls
+    chunk = len(pts) if n <= 4 else (100003 if n <= 9 else 60000)
+    run.count(f"points per call {chunk}")
     for i in range(0, len(pts), chunk):
         p = pts[i:i + chunk]
         v = evaluate_basis(basis, p)
